@@ -7,9 +7,11 @@ package mcp
 
 import (
 	"context"
+	"encoding/json"
 	"errors"
 	"fmt"
 	"io"
+	"net/http"
 	"strings"
 	"sync"
 	"testing"
@@ -427,6 +429,134 @@ func c01CoalescedCase(dir string, size int, order string) (obs, sig, msg string)
 	return "all calls completed", "", ""
 }
 
+// c01SSESpellingCase: the HTTP+SSE client against a scripted server that answers on the event stream
+// in one of the spellings the SSE format allows for a message event: named "message", unnamed (the
+// default type is message), with ids, retry fields, comment lines, CRLF line ends.  Connect, a ping and
+// two concurrent tool calls all complete, each with its own answer.
+func c01SSESpellingCase(spelling string) (obs, sig, msg string) {
+	fail := func(s, format string, a ...any) (string, string, string) {
+		return "", "c01 sse-spelling " + s, fmt.Sprintf(format, a...) + " [message events spelled: " + spelling + "]"
+	}
+	ctx, cancel := context.WithCancel(context.Background())
+	defer cancel()
+	pr, pw := io.Pipe()
+	nEvents := 0
+	event := func(data string) string {
+		nEvents++
+		eol := "\n"
+		var b strings.Builder
+		switch spelling {
+		case "named":
+			b.WriteString("event: message" + eol)
+		case "unnamed":
+		case "unnamed-after-first":
+			if nEvents == 1 {
+				b.WriteString("event: message" + eol)
+			}
+		case "with-id-and-retry":
+			b.WriteString(fmt.Sprintf("id: %d%sretry: 100%s", nEvents, eol, eol))
+		case "comments":
+			b.WriteString(": keep-alive" + eol + "event: message" + eol + ": another comment" + eol)
+		case "crlf-unnamed":
+			eol = "\r\n"
+		case "no-space-after-colon":
+			return "event:message\ndata:" + data + "\n\n"
+		}
+		b.WriteString("data: " + data + eol + eol)
+		return b.String()
+	}
+	hx := &hxTransport{Intercept: func(req *http.Request, n int) (*http.Response, error) {
+		h := http.Header{}
+		if req.Method == "GET" {
+			h.Set("Content-Type", "text/event-stream")
+			go io.WriteString(pw, "event: endpoint\ndata: /messages?sessionid=1\n\n")
+			return &http.Response{StatusCode: 200, Status: "200 OK", Header: h, Body: pr, Proto: "HTTP/1.1", ProtoMajor: 1, ProtoMinor: 1}, nil
+		}
+		body, _ := io.ReadAll(req.Body)
+		var m struct {
+			ID     json.RawMessage `json:"id"`
+			Method string          `json:"method"`
+			Params struct {
+				Arguments struct {
+					Tag string `json:"tag"`
+				} `json:"arguments"`
+			} `json:"params"`
+		}
+		json.Unmarshal(body, &m)
+		answer := ""
+		switch m.Method {
+		case "initialize":
+			answer = `{"jsonrpc":"2.0","id":` + string(m.ID) + `,"result":{"protocolVersion":"2025-06-18","capabilities":{"tools":{}},"serverInfo":{"name":"peer","version":"1"}}}`
+		case "ping":
+			answer = `{"jsonrpc":"2.0","id":` + string(m.ID) + `,"result":{}}`
+		case "tools/call":
+			answer = `{"jsonrpc":"2.0","id":` + string(m.ID) + `,"result":{"content":[{"type":"text","text":"echo ` + m.Params.Arguments.Tag + `"}]}}`
+		}
+		if answer != "" {
+			go io.WriteString(pw, event(answer))
+		}
+		return &http.Response{StatusCode: 202, Status: "202 Accepted", Header: h, Body: io.NopCloser(strings.NewReader("")), Proto: "HTTP/1.1", ProtoMajor: 1, ProtoMinor: 1}, nil
+	}}
+	c := NewClient(&Implementation{Name: "cli", Version: "1"}, &ClientOptions{Logger: quietLogger})
+	var cs *ClientSession
+	var connErr error
+	connected := false
+	go func() {
+		cs, connErr = c.Connect(ctx, &SSEClientTransport{Endpoint: "http://peer.test/sse", HTTPClient: hx.client()}, &ClientSessionOptions{ProtocolVersion: "2025-06-18"})
+		connected = true
+	}()
+	time.Sleep(time.Minute)
+	synctest.Wait()
+	defer func() {
+		cancel()
+		pw.Close()
+		pr.Close()
+		synctest.Wait()
+		if cs != nil {
+			cs.Close()
+		}
+	}()
+	switch {
+	case !connected:
+		return fail("call-never-completes", "Connect: the initialize call is still blocked a minute after the server answered it on the event stream")
+	case connErr != nil:
+		return fail("call-failed", "Connect: %v", connErr)
+	}
+	results := make([]string, 3)
+	done := make([]bool, 3)
+	go func() {
+		if err := cs.Ping(ctx, nil); err != nil {
+			results[0] = "error: " + err.Error()
+		} else {
+			results[0] = "pong"
+		}
+		done[0] = true
+	}()
+	for i := 1; i <= 2; i++ {
+		go func() {
+			r, err := cs.CallTool(ctx, &CallToolParams{Name: "echo", Arguments: map[string]any{"tag": fmt.Sprint("t", i)}})
+			switch {
+			case err != nil:
+				results[i] = "error: " + err.Error()
+			case len(r.Content) == 1:
+				results[i] = r.Content[0].(*TextContent).Text
+			}
+			done[i] = true
+		}()
+	}
+	time.Sleep(time.Minute)
+	synctest.Wait()
+	for i, want := range []string{"pong", "echo t1", "echo t2"} {
+		switch {
+		case !done[i]:
+			return fail("call-never-completes", "call %d is still blocked a minute after the server answered it on the event stream; the session is up", i)
+		case results[i] != want:
+			return fail("wrong-result", "call %d returned %q, want %q", i, results[i], want)
+		}
+	}
+	return "all calls completed", "", ""
+}
+
 func TestVerifC01AfterClose(t *testing.T) {
 	env := verifx.LoadEnv("C01")
 	res := env.NewResult()
@@ -484,6 +614,27 @@ func TestVerifC01AfterClose(t *testing.T) {
 				}
 			}
 		}
+	}
+	sp := env.NewCases(res, "api/sse-client-event-spellings")
+	for _, spelling := range []string{"named", "unnamed", "unnamed-after-first", "with-id-and-retry", "comments", "crlf-unnamed", "no-space-after-colon"} {
+		idx, mine := sp.Next()
+		if !mine {
+			continue
+		}
+		var obs, sig, msg string
+		func() {
+			defer func() {
+				if r := recover(); r != nil && sig == "" {
+					sig, msg = "c01 sse-spelling panic-or-leak", fmt.Sprintf("%v [%s]", r, spelling)
+				}
+			}()
+			synctest.Test(t, func(t *testing.T) { obs, sig, msg = c01SSESpellingCase(spelling) })
+		}()
+		if sig != "" {
+			sp.Violate(idx, sig, msg, 4)
+			continue
+		}
+		sp.Record(idx, obs, 4, func() string { return spelling })
 	}
 	coal := env.NewCases(res, "api/io-transport-coalesced-stream")
 	for _, dir := range []string{"response", "request"} {
